@@ -172,6 +172,7 @@ pub fn check_name_codec(sel: u64) -> Result<u64, Fail> {
 pub fn profile(tier: Tier) -> Profile {
     let mut p = Profile::base(if tier == Tier::Quick { 40 } else { 100 });
     p.w_flush = 4;
+    p.big_batches = true;
     p.w_reopen = 1;
     p.w_read = 0;
     p.huge_payload = tier == Tier::Thorough;
@@ -203,6 +204,21 @@ impl Prop for C11 {
     }
     fn strategy(&self, tier: Tier) -> BoxedStrategy<Case> {
         case_strategy(&profile(tier))
+    }
+    fn extra(&self, _ctx: &Ctx, shard: usize, rep: &mut crate::runner::ShardReport) {
+        // deep-queue scenario: the caller journals and flushes against a parked worker until the
+        // request channel is full; afterwards the journal must still be exact
+        if shard != 0 {
+            return;
+        }
+        match crate::deepq::deep_queue(1500) {
+            Ok((rec, blocked)) => {
+                rep.evaluations += rec.flushes.len() as u64;
+                *rep.labels.entry("deep_queue_flushes".into()).or_insert(0) += rec.flushes.len() as u64;
+                *rep.labels.entry("deep_queue_caller_blocked_on_full_channel".into()).or_insert(0) += blocked;
+            }
+            Err(f) => rep.violations.push(crate::runner::Violation { key: f.key, msg: format!("deep-queue scenario (1500 append+flush against a parked worker): {}", f.msg), case: serde_json::to_value(crate::ops::sample_case()).unwrap(), origin: "deep-queue".into() }),
+        }
     }
     fn run_case(&self, case: &Case, ctx: &Ctx) -> Result<CaseInfo, Fail> {
         let mut info = CaseInfo::default();
